@@ -197,7 +197,7 @@ def run(report, tier, seed, driver, proofs_ok):
 
     rng = common.rng_for("C15", seed)
     thorough = tier == "thorough"
-    n = 6000 if thorough else 420
+    n = 2400 if thorough else 420
     report.rule = (
         "cases = templates from six generators (whole templates with all functions; IAM resources with condition blocks over every "
         "operator; modelled resources with every declared leaf type (networks, ports, semi-strict bools as text and as bool, ints as "
